@@ -1111,7 +1111,7 @@ class Executor:
 
     # ================================================================ expressions
     def eval(self, e, env):
-        if self.contract.opaque and not self.in_spec and isinstance(e, (ast.Attribute, ast.Subscript, ast.Call, ast.ListComp, ast.DictComp, ast.GeneratorExp)):
+        if self.contract.opaque and not self.in_spec and isinstance(e, (ast.Attribute, ast.Subscript, ast.Call, ast.ListComp, ast.DictComp, ast.GeneratorExp, ast.BinOp)):
             k = self.contract.opaque.get(ast.unparse(e))
             if k is not None:
                 if callable(k):
@@ -1476,7 +1476,7 @@ class Executor:
             self.safety(False, "TypeError", "operand-not-None", line)
             raise PathEnd()
         # concrete fast path
-        if not is_sym(a) and not is_sym(b) and not isinstance(a, (PList, PObj)) and not isinstance(b, (PList, PObj)):
+        if not is_sym(a) and not is_sym(b) and not isinstance(a, (PList, PObj, Custom)) and not isinstance(b, (PList, PObj, Custom)):
             try:
                 return _CONC_OPS[type(op)](a, b)
             except ZeroDivisionError:
@@ -1499,7 +1499,7 @@ class Executor:
             return PList(list(a) + b.items, b.kind)
         if isinstance(a, (SFloat, float)) or isinstance(b, (SFloat, float)):
             return self.float_binop(op, a, b, line)
-        if isinstance(a, PObj) or isinstance(b, PObj):
+        if isinstance(a, (PObj, Custom)) or isinstance(b, (PObj, Custom)):
             hook = self.ctx.obj_binop
             if hook is not None:
                 r = hook(self, op, a, b, line)
@@ -1807,7 +1807,7 @@ class Executor:
                 raise Unsupported("concrete key store into a dict holding a symbolic token key")
             obj.d[idx] = v
             return
-        if isinstance(obj, (_SDictLike, _Sliceable)):
+        if isinstance(obj, (_SDictLike, _Sliceable)) or (isinstance(obj, Custom) and hasattr(obj, "setitem")):
             return obj.setitem(self, idx, v, line)
         raise Unsupported(f"item assignment on {type(obj).__name__} at L{line}")
 
